@@ -4,45 +4,6 @@ import Proofs.Serve
 
 namespace AuthbossModel.M
 
-theorem Jar.get_append (j1 j2 : Jar) (k : SKey) :
-    Jar.get (j1 ++ j2) k = (Jar.get j1 k).or (Jar.get j2 k) := by
-  unfold Jar.get
-  rw [List.find?_append]
-  cases List.find? (fun x => x.1 == k) j1 <;> simp
-
-theorem Jar.get_del_sub {j : Jar} {k k' : SKey} {v : Bytes} (h : (j.del k).get k' = some v) :
-    j.get k' = some v := by
-  unfold Jar.del at h
-  exact filter_get (q := fun x => x != k) h
-
-theorem Jar.get_delAll_sub {j : Jar} {wl : List SKey} {k' : SKey} {v : Bytes}
-    (h : (j.delAll wl).get k' = some v) : j.get k' = some v := by
-  unfold Jar.delAll at h
-  exact filter_get (q := fun x => wl.contains x) h
-
-theorem Jar.get_del_self (j : Jar) (k : SKey) : (j.del k).get k = none := by
-  unfold Jar.del Jar.get
-  have := find_filter_key_none j (fun x => x != k) k (by simp)
-  simp [this]
-
-theorem Jar.get_put {j : Jar} {k k' : SKey} {v v' : Bytes} (h : (j.put k v).get k' = some v') :
-    (k' = k ∧ v' = v) ∨ (k' ≠ k ∧ j.get k' = some v') := by
-  unfold Jar.put at h
-  rw [Jar.get_append] at h
-  by_cases hk : k' = k
-  · subst hk
-    rw [Jar.get_del_self] at h
-    left; refine ⟨rfl, ?_⟩
-    simp [Jar.get] at h; exact h.symm
-  · right; refine ⟨hk, ?_⟩
-    cases hd : (j.del k).get k' with
-    | some x =>
-      rw [hd] at h; simp at h; subst h; exact Jar.get_del_sub hd
-    | none =>
-      rw [hd] at h
-      simp [Jar.get] at h
-      exact absurd h.1.symm hk
-
 theorem applyActs_uid (acts : List Act) (br : Browser) (U : Bytes)
     (h : (applyActs br acts).sess.get .uid = some U) :
     br.sess.get .uid = some U ∨ U ∈ uidPuts acts := by
